@@ -613,7 +613,7 @@ func TestVerif(t *testing.T) {
 			usable = append(usable, k)
 		}
 	}
-	nb := r.N(75, 10000)
+	nb := r.N(300, 10000)
 	for b := 0; b < nb; b++ {
 		r.Run(groupSampled+b, fmt.Sprintf("sampled/%d", b), func(c *rep.Case) {
 			p := prng.New(r.Seed(), uint64(b), "c13")
